@@ -24,6 +24,7 @@ def dispatch1 (op : String) (j : Json) : R Json :=
   | "karyogram" => hKaryogram j
   | "getSegment" => hGetSegment j
   | "simGen" => hSimGen j
+  | "simAll" => hSimAll j
   | "qc" => hQC j
   | "objRun" => hObjRun j
   | "bpQuery" => hBpQuery j
